@@ -11,8 +11,9 @@ from . import schema_common as sc
 
 PROP = "C07"
 IMPORTS = sc.IMPORTS
-THEOREMS = []
-FACT_LEMMAS = []
+THEOREMS = ['C07_total', 'C07_rule_total']
+FACT_LEMMAS = ['Tie.tie_build', 'Tie.tie_call', 'C01Proof.caught_call_ok']
+DEPENDS = ['Py.v', 'Lang.v', 'Defs.v', 'Cond.v', 'Dsl.v', 'Check.v', 'DocSem.v', 'Inst.v', 'Gen/TablesGen.v', 'Gen/CallablesGen.v', 'Proofs/Tie.v', 'Proofs/PyFacts.v', 'Proofs/C01Proof.v', 'Proofs/C02Proof.v', 'Path.v', 'PathSpec.v', 'Run.v', 'Proofs/C03Proof.v', 'Proofs/C04Proof.v', 'Cast.v', 'RuleDefs.v', 'RuleSpec.v', 'RuleTerms.v', 'Rule.v', 'RunRule.v', 'Proofs/RuleProof.v', 'Proofs/SchemaSpecProof.v', 'Properties/C07.v']
 ASSUMPTIONS = ["Layer P models CPython's operators (pysem)",
                "the theorem is about the model's Err sites; a raise the model does not have is found only by the correspondence / oracle runs"]
 
